@@ -33,7 +33,7 @@ LEVEL_NOTE = "decoder and digest are own code; only the enumerated mutations of 
 
 QUICK = dict(n_field=16 * 14, n_meta=36, n_trunc=481 + 1, trunc_step=16, n_flip=400, flip_all=0, n_app=16, batch=6, n_ident=4, n_base=24, n_bg=16)
 # 7693-byte file, 110 coins
-THOROUGH = dict(n_field=16 * 110, n_meta=36 * 3, n_trunc=7693, trunc_step=1, n_flip=2 * 7693, flip_all=1, n_app=64, batch=8, n_ident=8, n_base=96, n_bg=96)
+THOROUGH = dict(n_field=16 * 110, n_meta=36 * 3, n_trunc=7693, trunc_step=1, n_flip=2 * 7693, flip_all=1, n_app=64, batch=12, n_ident=8, n_base=48, n_bg=48)
 
 
 def _cases(p):
